@@ -184,6 +184,9 @@ def run(ctx):
         ctx.violation('nlist[%s]: %s' % (rec['tag'].split(':')[0], b['clause']),
                       json.dumps({k: rec[k] for k in ('v', 'o', 'pbc', 'pos', 'cut2', 'tag')})[:1500],
                       {'file': b['file'], 'line': b['l']})
+    from .. import umbrella
+    import atomman as _am
+    umbrella.run(ctx, _am, 'C03')      # cross-module histories of spec/Atomman.tla (only the steps this property owns are reported here)
     small = [r_ for r_ in recs if len(r_['pos']) <= 6 and any(r_['nl'])]
     if small:
         ctx.sample({'kind': 'C->S record', **small[0]})
